@@ -185,6 +185,14 @@ func (t *Tree) RandomBody(b *Builder, prof Profile) {
 		}
 		return r, h
 	}
+	// rarely: move the Foundation address to another actor (and later back)
+	if t.Rng.IntN(25) == 0 {
+		to := b.randActor(Miner)
+		if b.V1Allowed() && (!b.V2Allowed() || t.Rng.IntN(2) == 0) {
+			b.V1FoundationUpdate(to)
+		}
+	}
+	foundationV2 := b.V2Allowed() && t.Rng.IntN(25) == 0
 	// v1 phase
 	if b.V1Allowed() {
 		nv1 := n
@@ -224,6 +232,9 @@ func (t *Tree) RandomBody(b *Builder, prof Profile) {
 		n -= nv1
 	}
 	if b.V2Allowed() {
+		if foundationV2 {
+			b.V2FoundationUpdate(b.randActor(Miner))
+		}
 		for i := 0; i < n; i++ {
 			switch k := t.Rng.IntN(16); {
 			case k < 5:
